@@ -34,11 +34,11 @@ def c03(tier, seed):
 
 def c16(tier, seed):
     return cc.codec_check('C16', tier, seed, ['ber', 'der', 'per', 'uper', 'oer'], ['PREFIX'], ['enc', 'pre'], numerics='0',
-                          model=['PrefixFreeTlv'])
+                          model=['PrefixFreeTlv', 'PerPrefixFree'], big=('big', 'quick', 'thorough'))
 
 
 def c05(tier, seed):
-    return cc.codec_check('C05', tier, seed, ['per', 'uper'], ['PER'], ['enc', 'dec'], numerics='0', model=['PerOctetPadded'], big=('big', 'quick', 'thorough'),
+    return cc.codec_check('C05', tier, seed, ['per', 'uper'], ['PER'], ['enc', 'dec'], numerics='0', model=['PerOctetPadded', 'PerReaderInverts'], big=('big', 'quick', 'thorough'),
                           fixtures={'quick': (['tests/test_uper.py', 'tests/test_per.py'], 'x691 or foo or sequence or choice or integer or enumerated or string'),
                                     'thorough': (['tests/test_uper.py', 'tests/test_per.py', 'tests/test_codecs_consistency.py'], None)})
 
